@@ -14,6 +14,14 @@ _LEVEL = ('Static necessary-condition checking: each rule is exact on its struct
           'claimed are those whose truth is visible in the shape of the code.')
 
 RULEDOC = {
+ 'SA-COORD.seekwrite': 'a record() written after a seek to X.extent_location() is the record of X (or of a part of X)',
+ 'SA-SIB.tool_views': "a tool call that acts on one view of the image (joliet / udf keyword only) is guarded by that view's own path and hide switches",
+ 'SA-ALIAS.restore': 'a container attribute saved in a local and assigned back later was saved as a copy (an alias restores nothing)',
+ 'SA-ARGS.swap': 'a field access passed positionally (self.xa) does not sit in the slot of another parameter while the parameter it is named after receives something else',
+ 'SA-IDENT.operands': 'both operands of an identity test (id()==id(), is) have static types that can denote the same object',
+ 'SA-MIRROR.total': 'a loop that copies a field of self into every member of a collection ranges over the whole collection, and grow/shrink siblings over the same expression',
+ 'SA-SEEK.consumer': 'every function that reads a file object from its current position is called with one that was positioned last (seek, _seek_to_extent, InodeOpenData binding), never after a read or with a caller-supplied object',
+ 'SA-SIB.query_twin': 'a query method callers use to ask before they change anything repeats every refusal of its insert method and scans every entry',
  'SA-CACHE.coherent': 'every cache in the module (memo dict, lru_cache, lazily filled slot) is coherent: the key determines the inputs, or the inputs are fixed at construction, or every writer of an input resets the cache',
  'SA-CSUM.fresh.eltorito': 'an El Torito checksum stored at construction covers only fields no later method rewrites; one stored elsewhere is recomputed before every use',
  'SA-CSUM.fresh.hybrid': 'a GPT checksum kept in object state is recomputed in the call that uses it (a memoised CRC goes stale when update_efi/update_mac move the partitions)',
